@@ -135,8 +135,9 @@ class Check:
             "wall_s": wall,
             "violations": len(new),
         }
-        os.makedirs(os.path.join(VERIF, "evidence"), exist_ok=True)
-        with open(os.path.join(VERIF, "evidence", self.prop + ".json"), "w") as fh:
+        edir = os.environ.get("VERIF_EVIDENCE_DIR") or os.path.join(VERIF, "evidence")    # (override: development runs only)
+        os.makedirs(edir, exist_ok=True)
+        with open(os.path.join(edir, self.prop + ".json"), "w") as fh:
             json.dump(ev, fh, indent=1)
         print("%s: %d rule instance(s) evaluated, %d distinct, %d known finding(s), %d new violation(s) [%.1fs]"
               % (self.prop, len(self.instances), len(distinct), len(printed_known), len(new), wall))
